@@ -183,6 +183,8 @@ def monitor_inproc(c):
         out.append(("finished run reported as running", {"class": "final-running"}))
     if c["sock_after"]:
         out.append(("socket file left behind by a run that ended normally", {"class": "socket-left"}))
+    if not c.get("recent_has_run", True):
+        out.append(("after the run has ended it is missing from the recent history", {"class": "ended-run-missing-from-history"}))
     for n in F["nodes"] + [h for h in F["h"].values() if h]:
         es = ev.get(n["name"], [])
         is_step = n["name"] in steps
@@ -424,7 +426,23 @@ steps:
       - a
 """}
 
-FINAL = {"prior": (FAILED, [FINISHED, FAILED]), "chain": (FINISHED, [FINISHED, FINISHED, FINISHED]), "retry": (FINISHED, [FINISHED, FINISHED]),
+SCENARIOS["huge"] = {
+    # every status line exceeds 64 KiB (bufio.Scanner's default token limit; the pinned reader has no limit)
+    "steps": ["a", "b"], "fails": [],
+    "yaml": """name: huge
+schedule: "* * * * *"
+steps:
+  - name: a
+    description: "%s"
+    command: sh -c "touch $M/a.start; sleep 0.01; touch $M/a.end"
+  - name: b
+    description: "%s"
+    command: sh -c "touch $M/b.start; sleep 0.01; touch $M/b.end"
+    depends:
+      - a
+""" % ("x" * 36000, "y" * 36000)}
+
+FINAL = {"huge": (FINISHED, [FINISHED, FINISHED]), "prior": (FAILED, [FINISHED, FAILED]), "chain": (FINISHED, [FINISHED, FINISHED, FINISHED]), "retry": (FINISHED, [FINISHED, FINISHED]),
          "fail": (FAILED, [FINISHED, FAILED, CANCELED]), "big": (FINISHED, [FINISHED, FINISHED])}
 
 # boundaries of the shutdown path after the final status has reached the history file
@@ -500,8 +518,12 @@ class Crash:
         """an uninterrupted traced run: per system call name the largest per-thread count (strace counts `when` per thread)"""
         h = self.home(scen)
         log = os.path.join(h, "strace.log")
-        subprocess.run(["strace", "-f", "-b", "execve", "-o", log, "-e", "trace=" + TRACE, self.bd, "start", "-q", self.dag(h, scen)],
-                       env=self.env(h), stdout=subprocess.DEVNULL, stderr=subprocess.DEVNULL, timeout=120)
+        pr_ = subprocess.run(["strace", "-f", "-b", "execve", "-o", log, "-e", "trace=" + TRACE, self.bd, "start", "-q", self.dag(h, scen)],
+                             env=self.env(h), stdout=subprocess.DEVNULL, stderr=subprocess.DEVNULL, timeout=120)
+        self.ref_rc = getattr(self, "ref_rc", {})
+        self.ref_rc[scen] = pr_.returncode
+        self.ref_home = getattr(self, "ref_home", {})
+        self.ref_home[scen] = h
         counts = {}
         for ln in open(log, errors="replace"):
             m = re.match(r"(\d+)\s+(\w+)\(", ln)
@@ -811,6 +833,32 @@ def monitor_crash(case):
     post = case["post"]
     if post.get("helper_failed") is not None:
         return [("status helper failed: %s" % post["helper_failed"], {"class": "infra"})]
+    if case.get("ended"):
+        # an uninterrupted run: once its process has ended the reported status is the final state it persisted (state, attempts,
+        # log path per step), without an error, and the run is present in the recent history
+        want_st, want_tbl = FINAL[case["scenario"]]
+        L = post.get("latest")
+        pr = case.get("prior")
+        want_rc = 1 if scen["fails"] else 0
+        if case.get("rc") != want_rc:
+            out.append(("the run ended with exit code %s, scripted %s" % (case.get("rc"), want_rc), {"class": "infra"}))
+        elif post.get("latest_err") or L is None:
+            out.append(("after the run's process has ended its status cannot be read: %s" % post.get("latest_err"), {"class": "ended-run-status-error"}))
+        elif L["st"] != want_st or table(L) != want_tbl or (pr and L.get("req") == pr.get("req")):
+            out.append(("after the run's process has ended the DAG is reported %r %s, not the run's final state %s (history files %s)"
+                        % (L["text"], table(L), want_tbl, post.get("files")), {"class": "ended-run-not-final"}))
+        else:
+            for n in L["nodes"]:
+                if n["st"] in (FINISHED, FAILED) and (not n["log"] or not n["log_exists"]):
+                    out.append(("step %s was executed but its recorded log path does not exist" % n["name"], {"class": "final-log"}))
+                if case["scenario"] == "retry" and n["name"] == "a" and n["rc"] != 1:
+                    out.append(("step a was attempted twice but RetryCount=%d is recorded" % n["rc"], {"class": "final-attempts"}))
+        if post.get("recent", 0) < (2 if pr else 1):
+            out.append(("after the run's process has ended the run is missing from the recent history (%d run(s) listed, files %s)"
+                        % (post.get("recent", 0), post.get("files")), {"class": "ended-run-missing-from-history"}))
+        if post.get("sock_file"):
+            out.append(("socket file left behind by a run that ended normally", {"class": "socket-left"}))
+        return out
     if not case["killed"]:
         return out
     marks = set(case["markers"])
@@ -915,12 +963,17 @@ def run_crash(ctx, bd, helper, tier, rng, workers=8):
     for scen in SCENARIOS:
         counts, ok, o, tg = cr.reference(scen)
         info[scen] = {"reference_ok": bool(ok), "per_thread_max": counts, "shutdown_calls": [t[0] for t in tg]}
+        # the uninterrupted run is a case of its own: after the run's process has ended the reported status must be the final
+        # state it persisted
+        cases.append({"scenario": scen, "how": "reference", "arg": None, "killed": False, "ended": True, "rc": cr.ref_rc.get(scen),
+                      "post": o, "markers": [], "prior": cr.prior.get(cr.ref_home.get(scen))})
         if not ok:
-            cases.append({"scenario": scen, "how": "reference", "arg": None, "killed": False, "reference_failed": True, "post": o, "markers": []})
             continue
         pts = enumerate_points(counts, tier, rng)
         if tier == "quick" and scen != "chain":
             pts = pts[::3]
+        if tier == "quick" and scen == "huge":
+            pts = pts[::4]
         jobs += [(scen, "sys", p) for p in pts]
         if tier == "quick":
             offs = [4 + rng.below(6) + 11 * i for i in range(34 if scen == "chain" else 10)]
@@ -941,7 +994,7 @@ def run_crash(ctx, bd, helper, tier, rng, workers=8):
         reps = 1 if tier == "quick" else 3
         sj = []
         for scen in SCENARIOS:
-            if not info[scen]["reference_ok"] or (tier == "quick" and scen not in ("chain", "big", "prior")):
+            if not info[scen]["reference_ok"] or (tier == "quick" and scen not in ("chain", "big", "prior", "huge")):
                 continue
             seq = cr.reference_states(scen)
             info[scen]["directory_states_of_an_uninterrupted_run"] = seq
